@@ -27,7 +27,7 @@ PROPS["C16"] = dict(
     level_note="trusted: the reference model (a std::map), the allocation counter (malloc-family interposition / sanitizer allocator hooks), gcc ASan for slot recycling; "
                "keys outside the 6-key universe and histories longer than the completed depth are not covered",
     legs=[
-        Leg("map", ["models/c16_bankmap.cpp"], "fast", ["--depth", "6"], ["--depth", "8"]),
+        Leg("map", ["models/c16_bankmap.cpp"], "fast", ["--depth", "6"], ["--depth", "9"], timeout_thorough=14000),
         Leg("map_asan", ["models/c16_bankmap.cpp"], "asan", ["--depth", "4"], ["--depth", "5"]),
     ],
     rule="breadth-first exploration of every sequence of bank API calls (getBank plain/Create/CreateRt, removeBank, first/next iteration, "
@@ -54,7 +54,7 @@ PROPS["C04"] = dict(
                "evaluated on a snapshot of OPNMIDIplay's private state and the key-on register state after every call.",
     level_note="trusted: the snapshot reader (-fno-access-control), the register tap hook, the invariant code; longer histories, more keys/channels and real emulator cores are outside the bound",
     legs=[
-        Leg("rt", RT_SRC, "fast", ["--prop", "C04", "--depth", "5"], ["--prop", "C04", "--depth", "6"]),
+        Leg("rt", RT_SRC, "fast", ["--prop", "C04", "--depth", "5"], ["--prop", "C04", "--depth", "7"], timeout_thorough=14000),
         Leg("cfg", RT_SRC, "fast", ["--prop", "C04", "--config", "1", "--seq", "1", "--starts", "fresh,song,busy5,nearfull chips=2", "--depth", "3"],
             ["--prop", "C04", "--config", "1", "--seq", "1", "--starts", "fresh,song,busy5,nearfull chips=2", "--depth", "4"]),
         Leg("asan", RT_SRC, "asan", ["--prop", "C04", "--config", "1", "--seq", "1", "--starts", "fresh,song,busy5", "--depth", "2"],
@@ -76,8 +76,8 @@ PROPS["C05"] = dict(
                "chip channel must equal the reference model's sounding set, with three-valued expectation only inside the 30 ms percussion window.",
     level_note="trusted: the reference model (models/rt_voice.cpp RefModel, rules quoted from the statement), tap and snapshot; don't-cares: 30 ms drum window, reset-state with keys down (pruned), pedal changes while a drum release is deferred (pruned)",
     legs=[
-        Leg("rules", RT_SRC, "fast", ["--prop", "C05", "--depth", "5"], ["--prop", "C05", "--depth", "6"]),
-        Leg("rules2chips", RT_SRC, "fast", ["--prop", "C05", "--chips", "2", "--depth", "4"], ["--prop", "C05", "--chips", "2", "--depth", "5"]),
+        Leg("rules", RT_SRC, "fast", ["--prop", "C05", "--depth", "5"], ["--prop", "C05", "--depth", "7"], timeout_thorough=14000),
+        Leg("rules2chips", RT_SRC, "fast", ["--prop", "C05", "--chips", "2", "--depth", "4"], ["--prop", "C05", "--chips", "2", "--depth", "6"], timeout_thorough=14000),
     ],
     rule="BFS over all histories of note-on/off, CC64/66/120/121/123, panic, reset-state, program change and 12/40 ms time steps on a melodic and a percussion channel; state = implementation snapshot + reference-model state",
     assumptions=RT_ASSUME,
@@ -90,7 +90,7 @@ PROPS["C06"] = dict(
     level_note="trusted: snapshot reader; 10-minute horizon enforced as a precondition (the scoring code makes the property false after about 66 simulated minutes of holding a note)",
     legs=[
         Leg("alloc", RT_SRC, "fast", ["--prop", "C06", "--depth", "3", "--starts", "fresh,alloc=0,alloc=1,alloc=2,arp=1,arp=1 alloc=1,nearfull chips=2,nearfull chips=3 arp=1"],
-            ["--prop", "C06", "--depth", "4", "--starts", "fresh,alloc=0,alloc=1,alloc=2,arp=1,arp=1 alloc=1,nearfull chips=2,nearfull chips=3 arp=1,nearfull chips=8"]),
+            ["--prop", "C06", "--depth", "5", "--starts", "fresh,alloc=0,alloc=1,alloc=2,arp=1,arp=1 alloc=1,nearfull chips=2,nearfull chips=3 arp=1,nearfull chips=8"], timeout_thorough=14000),
         # same exploration with every release time of the bank x30 (3 s .. 9 s tails): idle channels are still releasing when the next note-on is scored
         Leg("longrelease", RT_SRC, "fast", ["--prop", "C06", "--koff-scale", "30", "--depth", "3", "--starts", "fresh,alloc=0,alloc=1,alloc=2,nearfull chips=2,nearfull chips=1 arp=1"],
             ["--prop", "C06", "--koff-scale", "30", "--depth", "4", "--starts", "fresh,alloc=0,alloc=1,alloc=2,arp=1,nearfull chips=2,nearfull chips=1 arp=1,nearfull chips=3"]),
